@@ -331,6 +331,8 @@ def candidates(c, pools, kind, old, detail, quick):
     out += [(x, "undefined") for x in (und[:1] if quick and kind not in ("regime", "category", "ext-key") else und)]
     if kind == "rate" and old:
         out.append((old + "+zz-unknown", "undefined-part"))     # Key.Has: one defined part is enough
+    if kind == "ext-key" and old:
+        out.append((old + "+zz", "undefined"))                  # a defined key with an undefined sub-key is not a defined key
     return out
 
 
@@ -608,6 +610,17 @@ def run(c):
             npos["tag(inserted)"] = npos.get("tag(inserted)", 0) + 1
             for new, cls in [("zz-unknown", "undefined"), (c.rng.choice(pools.values("tag", None)[0]), "defined-other")]:
                 specs.append((ei, {"kind": "tag", "class": cls, "path": "$tags/0", "old": "", "new": new, "detail": "inserted"}))
+        # a tag an addon offers for ANOTHER document type, with that addon switched on
+        if view[2] in ("bill/order", "bill/delivery", "bill/payment", "bill/invoice") and not doc.get("$tags"):
+            short = view[2]
+            for akey, ad in sorted(pub.addons.items()):
+                foreign = sorted({t.get("key") for ts in (ad.get("tags") or []) if ts.get("schema") != short for t in (ts.get("list") or [])}
+                                 - {t.get("key") for ts in (ad.get("tags") or []) if ts.get("schema") == short for t in (ts.get("list") or [])})
+                if not foreign:
+                    continue
+                npos["tag(inserted with addon)"] = npos.get("tag(inserted with addon)", 0) + 1
+                specs.append((ei, {"kind": "tag", "class": "defined-other", "path": "$tags/0", "old": "", "new": c.rng.choice(foreign),
+                                   "detail": "inserted-with-addon", "addon": akey}))
     c.cov["positions"] = npos
     c.cov["mutated_documents"] = len(specs)
     for i in range(0, len(specs), 10000):
@@ -617,6 +630,12 @@ def run(c):
             if mut["detail"] == "inserted":
                 d = copy.deepcopy(j)
                 doc_of(d)["$tags"] = [mut["new"]]
+            elif mut["detail"] == "inserted-with-addon":
+                d = copy.deepcopy(j)
+                dd = doc_of(d)
+                dd["$tags"] = [mut["new"]]
+                if mut["addon"] not in (dd.get("$addons") or []):
+                    dd["$addons"] = list(dd.get("$addons") or []) + [mut["addon"]]
             else:
                 d = apply_mutation(j, mut["kind"], mut["path"], mut["old"], mut["new"], mut["detail"])
             chunk.append({"example": name, "mutation": mut, "document": d})
